@@ -987,6 +987,21 @@ pub fn deep_chain_oracle(rep: &mut Report, depths: &[usize], drop_probe: bool) {
     if !drop_probe {
         return;
     }
+    // a deep chain under a top level that is neither a throwable nor has frames: the parser rejects
+    // the text, inside the library call (child process: an overflow there kills only the child)
+    let depth = 300_000usize;
+    rep.checks += 1;
+    if let Ok(exe) = std::env::current_exe() {
+        match std::process::Command::new(exe).args(["rejectprobe", &depth.to_string()]).stdout(std::process::Stdio::null()).stderr(std::process::Stdio::null()).status() {
+            Ok(st) if st.success() => rep.nontrivial += 1,
+            Ok(st) => rep.fail(
+                "StackTrace::try_parse aborts the process on a text it rejects: a first line that is no throwable, no frames, then very many `Caused by:` lines (stack overflow while the library discards the cause chain it built)",
+                vec![format!("REJECTPROBE {}", depth)],
+                format!("child exit status: {:?}", st),
+            ),
+            Err(_) => {}
+        }
+    }
     // dropping a deep chain, in a child process (an overflow there kills only the child)
     let depth = 300_000usize;
     rep.checks += 1;
@@ -1001,6 +1016,22 @@ pub fn deep_chain_oracle(rep: &mut Report, depths: &[usize], drop_probe: bool) {
             Err(_) => {}
         }
     }
+}
+
+/// `pgh rejectprobe <depth>`: a text whose first line is no throwable and that has no frames,
+/// followed by `depth` `Caused by:` lines: `try_parse` answers `None` — and must get there without
+/// overflowing the stack while discarding the chain it built (2 MiB thread)
+pub fn reject_probe(depth: usize) {
+    let h = std::thread::Builder::new().stack_size(2 << 20).spawn(move || {
+        let mut t = String::with_capacity(depth * 16 + 32);
+        t.push_str("this line is not a throwable\n");
+        for _ in 0..depth {
+            t.push_str("Caused by: b: x\n");
+        }
+        StackTrace::try_parse(t.as_bytes()).is_none()
+    }).unwrap();
+    let ok = h.join().unwrap_or(false);
+    std::process::exit(if ok { 0 } else { 3 });
 }
 
 /// `pgh dropprobe <depth>`: parse a trace with `depth` nested causes on a 2 MiB thread and drop it
